@@ -77,7 +77,25 @@ func (c *Collection) writeWithMeta(key string, body []byte, xattrs []byte, oldCa
 			isJSON:     isJSON,
 			revSeqNo:   revSeqNo,
 		}
-		return c.storeDocument(txn, e)
+		if err = c.storeDocument(txn, e); err != nil {
+			return err
+		}
+		// View indexes are maintained incrementally by CAS ("re-map every document whose CAS is above the
+		// view's lastCas"), which assumes later writes carry larger CAS values. newCas is chosen by the
+		// caller and may lie anywhere, so: let the clock (now and after a reopen) continue above it,
+		// make the collection's high-water mark cover it, and have every view re-map from just below it.
+		hlc.updateLatestTime(Timestamp(newCas))
+		if _, err = txn.Exec(`UPDATE bucket SET lastCas=max(lastCas,?1)`, newCas); err != nil {
+			return err
+		}
+		if _, err = txn.Exec(`UPDATE collections SET lastCas=max(ifnull(lastCas,0),?1) WHERE id=?2`, newCas, c.id); err != nil {
+			return err
+		}
+		if newCas > 0 {
+			_, err = txn.Exec(`UPDATE views SET lastCas=min(ifnull(lastCas,0),?1)
+								WHERE designDoc IN (SELECT id FROM designDocs WHERE collection=?2)`, newCas-1, c.id)
+		}
+		return err
 	}, func() {
 		if e != nil {
 			c._postNewEvent(e)
